@@ -87,6 +87,23 @@ func enumPaths(fn *ssa.Function) (paths []*Path, overflow bool) {
 			n := len(lits)
 			var added *factKey
 			if l, ok := edgeLit(b, s); ok {
+				// a condition that is a phi of booleans (a compound condition computed as a value, e.g.
+				// `ok := !all || n == len(b)`) is resolved along the path: it is a constant (then the edge is either
+				// infeasible or uninformative) or another condition, which becomes the literal
+				if _, isPhi := l.Cond.(*ssa.Phi); isPhi {
+					cur := &Path{Fn: fn, Blocks: blocks}
+					rc := cur.eval(l.Cond, len(blocks)-1)
+					if isConstBool(rc, true) || isConstBool(rc, false) {
+						if isConstBool(rc, true) != l.Pos {
+							continue
+						}
+						rec(s)
+						continue
+					}
+					if rc != l.Cond {
+						l.Cond, l.Pos = normLit(rc, l.Pos)
+					}
+				}
 				if k, truth, ok := factOf(l); ok {
 					if k.kind == "nil" && truth && (loadedGlobal(k.v) != nil || isMakeInterface(k.v)) {
 						continue // package-level error values and freshly boxed values are never nil
